@@ -1940,3 +1940,29 @@ M("C05-overrides-folded-under-multiple-inheritance", "C05", F_IB, _FOLD,
 M("C05-benign-fold-condition-reordered", "C05", F_IB, _FOLD,
   "      struct_type->_derivation.size() == 1 &&\n      !struct_type->_derivation[0]._is_virtual &&\n      struct_type->_derivation[0]._vis <= V_public) {\n",
   benign=True)
+
+# ---- R04.1 not-a-member gate (S8-C04: out-of-line member definition exported as a global function)
+M("C04-uncommented-member-definition-exported-globally", "C04", F_IB,
+  "    if (scope->get_struct_type() != nullptr) {\n      // Wait, this is a method, not a function.",
+  "    if (scope->get_struct_type() != nullptr &&\n        function->_leading_comment != nullptr) {\n      // Wait, this is a method, not a function.",
+  expect="R04.1|scan_function|get_function|not-a-member")
+M("C04-member-definition-comment-updated-then-exported", "C04", F_IB,
+  "      update_function_comment(function, scope);\n      return;\n    }\n  }\n\n  if (function->is_template()) {",
+  "      update_function_comment(function, scope);\n    }\n  }\n\n  if (function->is_template()) {",
+  expect="R04.1|scan_function|get_function|not-a-member")
+M("C04-benign-member-test-spelled-positively", "C04", F_IB,
+  "    if (scope->get_struct_type() != nullptr) {\n      // Wait, this is a method, not a function.",
+  "    CPPStructType *owner = scope->get_struct_type();\n    if (!(owner == nullptr)) {\n      // Wait, this is a method, not a function.",
+  benign=True)
+
+# ---- R16.5 (S8-C16: stale search path)
+F_IM = "src/interrogate/interrogate_module.cxx"
+MUTANTS.append({"id": "C16-cycle-path-outlives-the-search", "prop": "C16", "expect": "R16.5|", "benign": False, "edits": [
+    (F_IM, "      cerr << \"Circular dependency between libraries detected:\\n\";\n", "      cerr << \"Circular dependency between libraries detected:\\n\";\n      vector_string cycle;\n"),
+    (F_IM, "        vector_string cycle;\n        cycle.push_back(library_name);\n", "        cycle.push_back(library_name);\n"),
+    (F_IM, "        dependencies[cycle[0]].erase(cycle[1]);\n", "        dependencies[cycle[0]].erase(cycle[1]);\n        cycle.clear();\n"),
+]})
+MUTANTS.append({"id": "C16-benign-cycle-path-hoisted-and-cleared-first", "prop": "C16", "expect": None, "benign": True, "edits": [
+    (F_IM, "      cerr << \"Circular dependency between libraries detected:\\n\";\n", "      cerr << \"Circular dependency between libraries detected:\\n\";\n      vector_string cycle;\n"),
+    (F_IM, "        vector_string cycle;\n        cycle.push_back(library_name);\n", "        cycle.clear();\n        cycle.push_back(library_name);\n"),
+]})
